@@ -283,11 +283,17 @@ def RP_NAN_HMC(model):
     return m_replay.replay_nan("hmc")
 
 
-def c14_hmc(out, tier, seed):
+def c02_hmc_nan(out, tier, seed):
+    return c14_hmc(out, tier, seed, prop="C02")
+
+
+def c14_hmc(out, tier, seed, prop="C14"):
     eng = mir_load.load_engine()
     mirsym.MUL_MODE["mode"] = "uf"
     configs = [(2, 1, 1), (1, 2, 1), (1, 1, 2)] + ([(2, 2, 2), (1, 1, 3)] if tier == "thorough" else [])
-    u = MUnit(out, "C14", "c14_hmc", eng, functions=["HMC::step", "HMC::leapfrog"],
+    label = ("HMC never moves a chain to a state whose log-density is NaN (nor to NaN coordinates)" if prop == "C14" else
+             "a proposal whose energy difference is NaN is not taken: `ln u <= H(x,p) - H(x',p')` is false on NaN")
+    u = MUnit(out, prop, "c14_hmc" if prop == "C14" else "c02_hmc_nan", eng, functions=["HMC::step", "HMC::leapfrog"],
               bounds=["(chains, dim, L) in %s; target value and gradient may be NaN at any point; every row starts at a "
                       "non-NaN density" % (configs,)],
               assumptions=["N-mode: real arithmetic plus a NaN flag with IEEE semantics (ordered comparisons false on NaN, "
@@ -318,7 +324,7 @@ def c14_hmc(out, tier, seed):
                 X, me = res
                 newpos = me.get("positions").a
                 for r in range(n):
-                    u.holds(ctx, "HMC never moves a chain to a state whose log-density is NaN (nor to NaN coordinates)",
+                    u.holds(ctx, label,
                             z3.Not(T.logp_is_nan(list(newpos[r]))), RP_NAN_HMC, "chains=%d dim=%d L=%d row=%d" % (n, d, L, r))
     finally:
         mirsym.MUL_MODE["mode"] = "exact"
